@@ -109,6 +109,21 @@ Theorem C17_client_choice_sound : forall header items supported c,
 Proof. exact client_choice_sound. Qed.
 Print Assumptions C17_client_choice_sound.
 
+(* keep-alive: the coding of the i-th response on a connection is the choice for the i-th request's own
+   header, whatever was negotiated for the requests before it (so C17_choice_sound applies to every
+   response); a handler that caches the first evaluation for the connection is refuted *)
+Theorem C17_choice_per_request : forall enabled before h after,
+  nth_error (conn_choices enabled (before ++ h :: after)) (length before) = Some (server_choice h enabled).
+Proof. exact conn_choices_independent. Qed.
+Print Assumptions C17_choice_per_request.
+
+Theorem C17_cached_choice_refuted :
+  exists enabled h1 h2 c items q,
+    nth_error (conn_choices_cached enabled [h1; h2]) 1 = Some (Some (Some c)) /\
+    parse_items h2 = Some items /\ In (c, q) items /\ qpos q = false.
+Proof. exact conn_choices_cached_refuted. Qed.
+Print Assumptions C17_cached_choice_refuted.
+
 (* unsupported codings are rejected whatever the framing; a coded body is never returned raw *)
 Theorem C17_unsupported_rejected : forall fuel h s enc,
   h_ce h = Some enc -> ~ In enc available_encodings ->
